@@ -189,6 +189,10 @@ def replay(behaviour, shorthand=None):
                     ev['df_fp'] = pt.table_fp(b.df_features)
                     want = {k: (v - (red or 0) if k.endswith('threshold') else v) for k, v in b.thresholds.items()}
                     ev['reduced_ok'] = bool(b.reduce_thresholds(red) == want and b.reduce_thresholds(0.205) == {k: (v - 0.205 if k.endswith('threshold') else v) for k, v in b.thresholds.items()})
+                    # the same settings written as numpy scalars (single precision where that is exact, numpy integers): still lowered by r
+                    npthr = {k: (np.float32(0.5) if k.endswith('threshold') else np.int64(v)) for k, v in b.thresholds.items()}
+                    twin = Bycycle(burst_method=a['method'], thresholds=dict(npthr), burst_kwargs=D[2])
+                    ev['reduced_ok'] = ev['reduced_ok'] and bool(twin.reduce_thresholds(0.125) == {k: (v - 0.125 if k.endswith('threshold') else v) for k, v in npthr.items()})
                     thr = {k: (v - (red or 0) if k.endswith('_threshold') else v) for k, v in intent[a['tk']].items()}
                     ev['fresh_fp'] = pt.table_fp(recompute_edges(before, thr))
                 elif a['a'] == 'RecomputeRaises':
